@@ -160,6 +160,23 @@ func main() {
 	}
 	var harnesses []hf
 	targets := map[*ssa.Package]bool{}
+	// packages of the same module as the harness package (e.g. the struct package of a differential
+	// variant) have zero-initialised globals too; their init functions are not executed
+	modPrefix := ""
+	for _, sp := range spkgs {
+		if sp != nil {
+			if i := strings.Index(sp.Pkg.Path(), "/"); i > 0 && !strings.Contains(sp.Pkg.Path()[:i], ".") {
+				modPrefix = sp.Pkg.Path()[:i+1]
+			}
+		}
+	}
+	if modPrefix != "" {
+		for _, p := range prog.AllPackages() {
+			if strings.HasPrefix(p.Pkg.Path(), modPrefix) {
+				targets[p] = true
+			}
+		}
+	}
 	for _, sp := range spkgs {
 		if sp == nil {
 			continue
